@@ -18,12 +18,14 @@ RULE = ("random shots with twist 0 (all shipped tables + smooth custom tables, B
         "segments incl. boundaries inside / at / beyond the range and opposing winds), ranges 300-4500 ft, 6-12 recorded "
         "distances; each fired at step h0, h0/2, h0/4 (thorough: also h0/8, and h0 in {0.5, 0.25, 0.125}); a case = (shot, range, h0); "
         "non-trivial when the shot has wind, a non-zero look / cant angle, an altitude change above 30 ft or is a vacuum shot")
-MUST_OBSERVE = ["shots", "rows_compared", "shots_with_wind_switch_inside_range", "shots_altitude_change_over_30ft", "vacuum_shots",
+MUST_OBSERVE = ["shots_exact_line_table", "shots", "rows_compared", "shots_with_wind_switch_inside_range", "shots_altitude_change_over_30ft", "vacuum_shots",
                 "shots_canted", "shots_inclined", "halvings_checked", "muzzle_rows_checked", "reference_runs"]
 ASSUMPTIONS = ["R-ODE (vf/refs.py): RK4, dt = h_ref/|v-w|, lands exactly on wind boundaries and recorded distances; run at h_ref and "
                "2 h_ref, the difference is its own error estimate e_ref and enters every tolerance (x10); h_ref is halved from 0.05 ft "
                "until e_ref <= 5e-4 ft, else the case is individually inconclusive",
-               "Atmo.get_density_factor_and_mach_for_altitude and TrajectoryCalc.drag_by_mach are black-box coefficient functions (C08 / C09)",
+               "Atmo.get_density_factor_and_mach_for_altitude and TrajectoryCalc.drag_by_mach are black-box coefficient functions (C08 / C09) - except "
+               "for the 'exact line' class (10 % of the shots): a custom table sampled from one straight line ending just above the launch Mach "
+               "number, for which the reference evaluates the line itself x 2.08551e-4 / BC and never asks the library for drag",
                "floors: rounding {1e-4 ft, 1e-4 ft, 1e-3 ft/s, 1e-6 s} + derived bound for a wind switch taking effect up to one step late"]
 ROUND = {"y": 1e-4, "z": 1e-4, "v": 1e-3, "t": 1e-6}
 COMPONENTS = ("y", "z", "v", "t")
@@ -50,10 +52,14 @@ def solver_rows(spec, h, r_ft, step_ft, trace=None):
     return out, list(hit)
 
 
-def reference(spec, xs, shot, tc):
+def reference(spec, xs, shot, tc, line=None):
     """R-ODE at h and 2h; halve h until the reference certifies itself.  Returns (states, e_ref per component, result, h) or None."""
     alt0 = shot.atmo.altitude >> Distance.Foot
     dm = shot.atmo.get_density_factor_and_mach_for_altitude
+    if line is not None:
+        # the table samples one straight line: every admissible interpolant is that line, so the reference does not ask the library
+        c0, slope, bc = line[0], line[1], spec["bc"]
+        tc = type("ExactLine", (), {"drag_by_mach": staticmethod(lambda m: (c0 + slope * m) * 2.08551e-04 / bc)})
     h = 0.05
     prev = None
     with monitors.quiet():
@@ -130,7 +136,10 @@ def check_case(ctx, case):
         e_ref = {q: 0.0 for q in COMPONENTS}
         k_max, switches, v_min = 0.0, [], spec["mv_fps"]
     else:
-        ref = reference(spec, xs, shot, tc)
+        ref = reference(spec, xs, shot, tc, case.get("line"))
+        if case.get("line"):
+            ctx.count("shots_exact_line_table")
+            nontrivial = True
         ctx.count("reference_runs")
         if ref is None:
             ctx.skip("reference could not certify its own accuracy (e_ref > 5e-4 ft at h_ref = 0.0125 ft)")
@@ -217,7 +226,27 @@ def gen_case(rng, thorough=False):
     # the h and h^2 terms have opposite signs for speed and the error toward the reference is not monotone in h
     # (measured: 1.6e-2, 3.8e-2 ft/s at 2 ft, 1 ft) - and the statement speaks of refining the step
     h0 = 0.5 if not thorough else rng.choice([0.5, 0.5, 0.25, 0.125])
-    return {"shot": s, "range_ft": r_ft, "rows": n_rows, "h0": h0, "halvings": 2 if not thorough else 3}
+    case = {"shot": s, "range_ft": r_ft, "rows": n_rows, "h0": h0, "halvings": 2 if not thorough else 3}
+    if rng.random() < 0.1 and s["atmo"]["kind"] != "vacuum":
+        # a custom table sampled from one straight line Cd = c0 + slope M, ending just above the launch Mach number (as tables
+        # derived from radar tracks do): the flight starts in the upper half of the last interval and the drag function of the
+        # model is known exactly without asking the library
+        s["mv_fps"] = min(3000.0, max(1300.0, s["mv_fps"]))
+        top = round((s["mv_fps"] + 70.0) / 1000.0, 3)           # speed of sound >= 1000 ft/s in every generated atmosphere
+        last_gap = rng.uniform(1.1, 1.3)
+        c0 = rng.uniform(0.35, 0.6)
+        slope = (rng.uniform(0.15, 0.3) - c0) / top
+        nodes, m = [0.0], 0.0
+        while True:
+            m += rng.uniform(0.15, 0.5)
+            if m >= top - last_gap - 0.1:
+                break
+            nodes.append(round(m, 4))
+        nodes += [round(top - last_gap, 4), top]
+        s["table"] = [[x, c0 + slope * x] for x in nodes]
+        s.pop("_restate", None)
+        case["line"] = [c0, slope]
+    return case
 
 
 def run(ctx):
